@@ -97,6 +97,15 @@ def check(fx, rep, tier):
                 break
         t = T.term(guard, T.Env(), mutated) if guard else None
         ok = t is not None and t[0] == "call" and str(t[1]).endswith("::is_empty")
+        if not ok:
+            # `let Some(first) = <the class's inferences>.next() else { continue }`: skipped exactly when there is none
+            for a, key in reversed(ps):
+                if isinstance(a, dict) and a.get("s") == "Let" and a.get("els") is not None and key == "els":
+                    pv = F.pat_variants(a["pat"]) or set()
+                    init = F.strip(a["init"])
+                    if {v for _, v in pv} == {"Some"} and init.get("k") == "MethodCall" and init["method"] in ("next", "pop_front", "pop", "first", "last", "pop_first"):
+                        ok = True
+                    break
         rep.oblige(ok, "R14.1", "continue-only-when-empty", F.loc(n["span"]), "a class is skipped (continue) for a reason other than having no inferences: it keeps whatever set it had")
     # made_progress set in the fold loop; loop exits only on !made_progress
     prog_local = None
